@@ -3,7 +3,7 @@
    rc_inv_instr / rc_inv_att incremented; ignored courses never become courses of the problem (checked against cdedb::read on every
    generated export).  adapt_course is adapt_course_for_invisible_participants. *)
 From Coq Require Import List ZArith Lia Bool Arith.
-Require Import HP1 Cao1 Cao3 Json Cde CdeThms.
+Require Import HP1 Cao1 Cao3 Json Cde CdeThms CdeSpec CdeRefine CdeIgnore.
 Import ListNotations.
 
 (* with pre = number of ignored pre-assigned attendees: any number of new attendees within the ADAPTED limits keeps the course within
@@ -21,7 +21,43 @@ Proof. exact adapt_fixed. Qed.
 Theorem C11_fixed_active : forall courses a c, c_fixed (crs courses c) = true -> active courses a c = true.
 Proof. exact fixed_active. Qed.
 
-Check C11_reserve. Check C11_fixed. Check C11_fixed_active.
+(* --- on the reader (CdeSpec.spec_read, which the transcription of cdedb::read is proved to compute: C12_refinement) --- *)
+(* no ignored pre-assigned registration is a participant of the problem (nor is its id, when registration ids are distinct) *)
+Theorem C11_ignored_not_participant : forall ign_a rviews p, In p (spec_participants ign_a rviews) ->
+  exists v, In v rviews /\ ignored ign_a v = false /\ kept ign_a v = true /\ p = mk_part v.
+Proof. exact ignored_not_participant. Qed.
+Theorem C11_ignored_id_absent : forall ign_a rviews v, NoDup (map rv_id rviews) -> In v rviews -> ignored ign_a v = true ->
+  ~ In (rv_id v) (map rp_dbid (spec_participants ign_a rviews)).
+Proof. exact ignored_id_absent. Qed.
+(* the courses of the problem are offered in the track and, with --ignore-cancelled, take place; an ignored course's id is mapped to
+   "ignored", so choices, assignments and instructor entries naming it are dropped (every kept choice names a course of the problem) *)
+Theorem C11_problem_courses : forall ign_c cviews v, In v (spec_csorted ign_c cviews) ->
+  In v cviews /\ cv_status v <> NotOffered /\ (ign_c = true -> cv_status v = TakesPlace).
+Proof. exact problem_courses_offered. Qed.
+Theorem C11_ignored_course_lookup : forall ign_c cviews v, In v cviews -> in_problem ign_c v = false ->
+  lookup (cv_id v) (spec_cmap ign_c cviews) = Some None.
+Proof. exact ignored_course_lookup. Qed.
+Theorem C11_choices_in_problem : forall cmap l res c pen, pcd_choices cmap l 0 = ROk res -> In (c, pen) res ->
+  exists v cid, nth_error l pen = Some v /\ as_u64 v = Some cid /\ lookup cid cmap = Some (Some c).
+Proof. exact choices_never_ignored. Qed.
+(* the places of the ignored attendees of a course are reserved: limits reduced by their number (not below 0), the course pinned, their
+   names kept for the listing *)
+Theorem C11_reserved_places : forall ign_a rviews ci v,
+  let mine := filter (fun r => opt_is (pc_assigned (rv_pcd r)) ci) (filter (ignored ign_a) rviews) in
+  let att := List.length (filter (fun r => negb (opt_is (pc_instr (rv_pcd r)) ci)) mine) in
+  let c := spec_course ign_a rviews ci v in
+  rc_max c = Z.max 0 (cv_max v - Z.of_nat att) /\ rc_min c = Z.max 0 (cv_min v - Z.of_nat att) /\
+  rc_hidden c = map rv_name mine /\ (rc_fixed c = true <-> mine <> []).
+Proof. exact reserved_places. Qed.
+
+Check C11_reserve. Check C11_fixed. Check C11_fixed_active. Check C11_ignored_not_participant. Check C11_ignored_id_absent.
+Check C11_problem_courses. Check C11_ignored_course_lookup. Check C11_choices_in_problem. Check C11_reserved_places.
 Print Assumptions C11_reserve.
 Print Assumptions C11_fixed.
 Print Assumptions C11_fixed_active.
+Print Assumptions C11_ignored_not_participant.
+Print Assumptions C11_ignored_id_absent.
+Print Assumptions C11_problem_courses.
+Print Assumptions C11_ignored_course_lookup.
+Print Assumptions C11_choices_in_problem.
+Print Assumptions C11_reserved_places.
